@@ -6,6 +6,7 @@ package main
 // did not reach.
 
 import (
+	"github.com/fluhus/gostuff/minhash"
 	"compress/gzip"
 	"bytes"
 	"fmt"
@@ -558,7 +559,9 @@ func errorClassInputs(name string) [][]byte {
 			bads = append(bads, mk(i, "1x"), mk(i, "-"), mk(i, "1.5"))
 		}
 		bads = append(bads, mk(5, "x"), mk(5, "++"), mk(8, "1,2"), mk(8, "1,2,3,4"), mk(8, "256,0,0"), mk(8, "a,b,c"), mk(8, "-1,0,0"),
-			mk(9, "3"), mk(9, "1"), mk(9, "0"), mk(10, "1,2,3"), mk(10, "1"), mk(10, "1,x"), mk(10, ""), mk(11, "0"), mk(11, "0,5,9"), mk(11, "0,y"), mk(11, ""), mk(10, "1,2,"), mk(11, ",0,5"))
+			mk(9, "3"), mk(9, "1"), mk(9, "0"), mk(9, "-1"), mk(9, "-2"), mk(9, "-9223372036854775808"), mk(9, "1099511627776"), mk(9, "4611686018427387904"),
+			strings.Join(append(append([]string(nil), f[:9]...), "-1", "1,2"), "\t") + "\n", strings.Join(append(append([]string(nil), f[:9]...), "4611686018427387904", "1,2"), "\t") + "\n",
+			mk(10, "1,2,3"), mk(10, "1"), mk(10, "1,x"), mk(10, ""), mk(11, "0"), mk(11, "0,5,9"), mk(11, "0,y"), mk(11, ""), mk(10, "1,2,"), mk(11, ",0,5"))
 		for _, bad := range bads {
 			wrap(g, bad)
 		}
@@ -1408,6 +1411,24 @@ func sequtilRound4_14(c *Ctx) {
 				c.add(Case{Op: "su.translate - " + hx(m), Impl: strings.Replace(got, "PANIC", "P", 1), Kind: "translate-bitflip", Nontrivial: true, Oracle: oracle, Note: fmt.Sprintf("Translate(nil, %q)", m)})
 			}
 		}
+	}
+	// round 8: dst prefixes holding ARBITRARY bytes (NUL, 0xff, letters): Translate appends one letter per codon
+	for i := 0; i < c.n(40); i++ {
+		pre := c.bytesFrom([]byte{0, 0, 'M', '*', 0xff, 'x', '\n', 1}, 1+c.rng.Intn(6))
+		ncod := c.rng.Intn(5)
+		var src []byte
+		for j := 0; j < ncod; j++ {
+			src = append(src, c.bytesFrom([]byte("ACGTacgt"), 3)...)
+		}
+		arena := make([]byte, len(pre), len(pre)+c.rng.Intn(3)*ncod)
+		copy(arena, pre)
+		got := safe(func() string { return hx(sequtil.Translate(arena, src)) })
+		want := safe(func() string { return hx(append(append([]byte(nil), pre...), sequtil.Translate(nil, src)...)) })
+		oracle := ""
+		if got != want {
+			oracle = fmt.Sprintf("Translate(dst %q, %q) = %s, want dst followed by Translate(nil, src) = %s", pre, src, trunc(got, 60), trunc(want, 60))
+		}
+		c.add(Case{Op: "su.translate " + hx(pre) + " " + hx(src), Impl: strings.Replace(got, "PANIC", "P", 1), Kind: "translate-arbitrary-dst", Nontrivial: true, Oracle: oracle, Note: fmt.Sprintf("Translate(dst %q, %d codons)", pre, ncod)})
 	}
 	// length not divisible by 3 with every kind of dst
 	for i := 0; i < c.n(30); i++ {
@@ -2457,6 +2478,35 @@ func mashRound7(c *Ctx) {
 		}
 	}
 	c.add(Case{Kind: "mash-multi-million", Nontrivial: true, Oracle: oracle, Note: fmt.Sprintf("mash.Sequences(%d, %d) of %d bases, whole and in two overlapping pieces", size, k, n)})
+}
+
+// mashSeeds (round 8): every entry point under a non-zero mash.Seed -- Sequences in one call, minhash.New + Add,
+// and Add in two steps must give the same sketch (the seed is read by all of them), and a different seed a
+// different one.
+func mashSeeds(c *Ctx) {
+	old := mash.Seed
+	defer func() { mash.Seed = old }()
+	seqs := [][]byte{c.bytesFrom([]byte("ACGT"), 300), c.bytesFrom([]byte("ACGTacgtN"), 200)}
+	mash.Seed = 0
+	base := sketchOf(40, 11, seqs...)
+	for _, seed := range []uint32{1, 12345, 0xffffffff} {
+		mash.Seed = seed
+		one := sketchOf(40, 11, seqs...)
+		mh := minhash.New[uint64](40)
+		mash.Add(mh, 11, seqs...)
+		viaAdd := u64s(mh.View())
+		mh2 := minhash.New[uint64](40)
+		mash.Add(mh2, 11, seqs[0])
+		mash.Add(mh2, 11, seqs[1])
+		twoSteps := u64s(mh2.View())
+		oracle := ""
+		if one != viaAdd || one != twoSteps {
+			oracle = fmt.Sprintf("with mash.Seed = %d: Sequences, New+Add and Add in two steps give different sketches", seed)
+		} else if one == base {
+			oracle = fmt.Sprintf("mash.Seed = %d gives the same sketch as seed 0", seed)
+		}
+		c.add(Case{Kind: "mash-seed", Nontrivial: true, Oracle: oracle, Note: fmt.Sprintf("Sequences / New+Add / Add twice with mash.Seed = %d", seed)})
+	}
 }
 
 func mashRound6(c *Ctx) {
